@@ -250,7 +250,7 @@ def to_exec_trace(tid, scn, res):
         return None
     if scn.get("git") or any(e["e"] in ("Kill", "Abort", "Hang") for e in res["events"]):
         return None
-    if scn["sched"].get("unrelated") or scn.get("dup_spelling"):
+    if scn["sched"].get("unrelated") or scn.get("dup_spelling") or scn["sched"].get("allow_stop"):
         return None
     evs = []
     for e in res["events"]:
